@@ -9,7 +9,9 @@ import (
 	"fmt"
 	"os"
 	"regexp"
+	"runtime"
 	"sort"
+	"strings"
 	"time"
 )
 
@@ -89,6 +91,22 @@ func verifEnum(name string, vocab ...string) string {
 		}
 	}
 	return vocab[0]
+}
+
+// verifCalledFrom reports whether a function whose name contains sub is on the call stack.
+func verifCalledFrom(sub string) bool {
+	pcs := make([]uintptr, 64)
+	n := runtime.Callers(2, pcs)
+	fr := runtime.CallersFrames(pcs[:n])
+	for {
+		f, more := fr.Next()
+		if strings.Contains(f.Function, sub) {
+			return true
+		}
+		if !more {
+			return false
+		}
+	}
 }
 
 func verifAssume(c bool) {
